@@ -950,7 +950,7 @@ func (g *Gen) execInstr(in ssa.Instruction, st *State) {
 		ks := g.sortOf(mt.Key())
 		st.heap[dn] = g.defineRaw("h", ds, fmt.Sprintf("(store %s %s ((as const (Array %s Bool)) false))", hd, id, ks.SMT()))
 		g.setVal(x, Val{T: id, S: sRef, G: x.Type()})
-		g.assume(st.reach, fmt.Sprintf("(= (%s %s %s) 0)", mapLenFn(ks), st.heap[dn], id))
+		g.assume(st.reach, fmt.Sprintf("(= %s 0)", mapLenTerm(ks, st.heap[dn], id)))
 	case *ssa.MakeInterface:
 		v := g.val(x.X, st)
 		g.setVal(x, g.makeIface(v, x.X.Type()))
@@ -1348,9 +1348,15 @@ func mapLenFn(ks *Sort) string {
 	return "map.len." + ks.Key()
 }
 
+// mapLenTerm: the length of map `ref` in key-set heap `heap`.
+func mapLenTerm(ks *Sort, heap, ref string) string {
+	return fmt.Sprintf("(%s (select %s %s))", mapLenFn(ks), heap, ref)
+}
+
 func (g *Gen) mapSorts(mt *types.Map) (string, string) {
 	ks, vs := g.sortOf(mt.Key()), g.sortOf(mt.Elem())
-	g.declareFun(mapLenFn(ks), fmt.Sprintf("((Array Int (Array %s Bool)) Int) Int", ks.SMT()))
+	// the length of a map is a function of ITS key set only: writing another map of the same key type leaves it alone
+	g.declareFun(mapLenFn(ks), fmt.Sprintf("((Array %s Bool)) Int", ks.SMT()))
 	return fmt.Sprintf("(Array Int (Array %s Bool))", ks.SMT()), fmt.Sprintf("(Array Int (Array %s %s))", ks.SMT(), vs.SMT())
 }
 
@@ -1398,7 +1404,9 @@ func (g *Gen) execMapUpdate(x *ssa.MapUpdate, st *State) {
 	// length fact
 	was := fmt.Sprintf("(select (select %s %s) %s)", hd, m.T, k.T)
 	ml := mapLenFn(g.sortOf(t.Key()))
-	g.assume(st.reach, fmt.Sprintf("(= (%[7]s %[1]s %[2]s) (ite %[3]s (%[7]s %[4]s %[5]s) (+ (%[7]s %[6]s %[2]s) 1)))", nd, m.T, was, hd, m.T, hd, ml))
+	_ = ml
+	mks := g.sortOf(t.Key())
+	g.assume(st.reach, fmt.Sprintf("(= %s (ite %s %s (+ %s 1)))", mapLenTerm(mks, nd, m.T), was, mapLenTerm(mks, hd, m.T), mapLenTerm(mks, hd, m.T)))
 }
 
 // ---------------------------------------------------------------- interfaces
